@@ -114,6 +114,8 @@ def check_base(ctx, case):
             ctx.count('skipped_edge_tie')
             continue
         tc = dict(case, coords=nc.tolist(), values=nv.tolist())
+        if name.startswith(('shift_values', 'scale_values')):
+            tc['dtype'] = 'float64'      # the transformed values need not be representable in the base dtype
         if name.startswith('scale_coords') and isinstance(ml, str):
             pass
         try:
